@@ -84,7 +84,10 @@ def _flake_pair(case):
     fd, path = tempfile.mkstemp(suffix=".yaml", prefix="flake_")
     try:
         with os.fdopen(fd, "w") as f:
-            yaml.safe_dump({"kinetics": {"a": 80.0}}, f)
+            y = {"kinetics": {"a": 80.0}}
+            if case.get("solution"):
+                y["solution"] = {k: float(v) for k, v in case["solution"].items()}
+            yaml.safe_dump(y, f)
         S = Snowflake(k={"int": 0, "ext": 0, "s0": K, "s_sigma_rel": 0}, N_vials=(1, 1, 1), storeStates="all",
                       dt=0.1, seed=1, opcond=op, configPath=path, initIce="direct")
     finally:
@@ -99,6 +102,8 @@ def _flake_pair(case):
     c0 = dict(dim="homogeneous", config="shelf", height=0.01, diameter=0.01, K_shelf=K, start=case["start"],
               stop=case["stop"], rate=case["rate"], holds=[list(case["hold"])], t_tot=case["t_tot"],
               cn=Tn + 1e-9, seed=0, kinetics={"a": 80.0})
+    if case.get("solution"):
+        c0["solution"] = dict(case["solution"])
     r = u.run_real_full(c0)
     if r["raise"]:
         return {"raise": r["raise"]}
@@ -115,6 +120,9 @@ def _flake_pair(case):
             "T_after_flake": float(X[0, kn + 1]), "T_after_0D": float(T0[n0]),
             "sigma_after_flake": float(X[1, kn + 1]), "sigma_after_0D": float(w0[n0] / (1 - ws)),
             "sigma_jump_flake": float(X[1, kn]),
+            # frozen fraction half-way through solidification (column k+1 of Snowflake <-> entry k of 0D)
+            "sigma_mid_flake": float(X[1, min(kn + 1 + int(0.5 * r["stats"][2] * 600), X.shape[1] - 1)]),
+            "sigma_mid_0D": float(w0[min(n0 + int(0.5 * r["stats"][2] * 600), len(w0) - 1)] / (1 - ws)),
             "tsol_flake": float(st["t_solidification"][0]), "tsol_0D": float(r["stats"][2] * 60)}
 
 
@@ -136,7 +144,18 @@ def _thin(case):
     k0 = 0.05 * 0.126 + 0.95 * 0.598
     Bi = case["K_shelf"] * H / k0
     k = int(np.argmax(gap - Bi * drive))
-    return {"raise": None, "Bi": Bi, "gap_max": float(gap.max()), "worst_excess": float((gap - Bi * drive)[k]),
+    # cooling curve: height-averaged 1D temperature at its reported times vs the 0D curve at the same times
+    t1 = r1["time"][:inuc] * 3600
+    t0 = r0["time"] * 3600
+    has0 = np.nonzero(r0["ice"] > 0)[0]
+    n0 = int(has0[0]) if len(has0) else len(t0)
+    m = t1 <= t0[max(n0 - 1, 0)]
+    T0i = np.interp(t1[m], t0[:n0], r0["temp"][:n0])
+    cdev = np.abs(Tc.mean(axis=1)[m] - T0i) - Bi * np.maximum(drive[m], np.abs(r1["shelf"][:inuc][m] - T0i))
+    kc = int(np.argmax(cdev)) if m.any() else 0
+    return {"raise": None, "Bi": Bi, "curve_excess": float(cdev[kc]) if m.any() else 0.0,
+            "curve_dev": float(np.max(np.abs(Tc.mean(axis=1)[m] - T0i))) if m.any() else 0.0,
+            "curve_t": float(t1[m][kc]) if m.any() else 0.0, "rows_1D": int(len(T)), "gap_max": float(gap.max()), "worst_excess": float((gap - Bi * drive)[k]),
             "Tnuc_mean_1D": float(r1["stats"][2]), "Tnuc_0D": float(r0["stats"][0]),
             "tnuc_1D": float(r1["stats"][4]), "tnuc_0D": float(r0["stats"][1])}
 
@@ -173,7 +192,22 @@ def run_impl(case):
             lam = (tt - t1[b - 1]) / (t1[b] - t1[b - 1])
             col1 = (1 - lam) * T1[b - 1] + lam * T1[b]
             gaps.append(float(np.max(np.abs(T2[a] - col1[:, None]))))
+        # after nucleation (both models frozen in part): rows later than both nucleation times + 5 s
+        tn2 = t2[o2["rows"].index(o2["iSaveEnd"])]
+        tn1 = t1[min(inuc1, len(t1) - 1)]
+        late = []
+        for a, tt in enumerate(t2):
+            if o2["rows"][a] <= o2["iSaveEnd"] or tt < max(tn1, tn2) + 5.0:
+                continue
+            b = int(np.searchsorted(t1[inuc1 + 1:], tt)) + inuc1 + 1
+            if b <= inuc1 + 1 or b >= len(t1):
+                continue
+            lam = (tt - t1[b - 1]) / (t1[b] - t1[b - 1]) if t1[b] > t1[b - 1] else 0.0
+            col1 = (1 - lam) * T1[b - 1] + lam * T1[b]
+            late.append((float(np.max(np.abs(T2[a] - col1[:, None]))), float(tt)))
+        gl = max(late) if late else (0.0, 0.0)
         return {"raise": None, "gap_cooling": max(gaps) if gaps else 0.0, "n_compared": len(gaps),
+                "gap_late": gl[0], "gap_late_t": gl[1], "n_late": len(late),
                 "stats2D": o2["stats"], "stats1D": [float(x) for x in r1["stats"]], "radial": o2["radial"],
                 "dt2D": o2["dt"]}
     if kind == "flake0D":
@@ -235,7 +269,15 @@ def predicates(case, impl):
                         f"spread of {r['spread_at_first']:.3e} K at reported row {r['first_row_with_spread']} (first "
                         f"step with a shelf flux), {r['max_cooling']:.3e} K before nucleation, {r['max']:.3e} K "
                         f"overall (row {r['row']})")))
-        ev = impl.get("evap")
+        tf = impl.get("topflux")
+        if tf and tf.get("n") and tf["score"] > 1.0 and case["config"] == "VISF":
+            out.append(Failure(
+                clause="evap2D_eq_evap1D", key=f"evap2D_eq_evap1D|_run_2D|{tf['stage']}",
+                detail=(f"{tf['stage']} stage, reported row {tf['row']}, top temperature {tf['T_top']:.3f} K: the evaporative "
+                        f"heat flux applied by the 2D model (inferred from consecutive fields) is {tf['q_applied']:.6g} "
+                        f"W/m2, the boundary condition of the 1D model gives {tf['q_expected']:.6g} W/m2 "
+                        f"(liquid law {tf.get('q_liquid')}, ice law {tf.get('q_ice')})")))
+        ev = None
         if ev and ev["n"] > 0 and ev["worst_rel"] > 1e-6:
             qa, ql, qi, Tt = ev["vals"]
             out.append(Failure(
@@ -248,6 +290,14 @@ def predicates(case, impl):
             out.append(Failure(clause="column_eq_1D", key=f"column_eq_1D|_run_2D|{case['config']}",
                                detail=f"2D columns differ from the 1D model of equal cross-section by "
                                       f"{impl['gap_cooling']:.3f} K in the cooling stage"))
+        if impl.get("gap_late", 0.0) > 3.0:
+            out.append(Failure(clause="column_eq_1D_late", key=f"column_eq_1D_late|_run_2D|{case['config']}",
+                               detail=f"after nucleation the 2D columns differ from the 1D model of equal cross-section "
+                                      f"by {impl['gap_late']:.2f} K (reported time {impl['gap_late_t']:.1f} s)"))
+        st2, st1 = impl["stats2D"], impl["stats1D"]
+        if abs(st2[5] - st1[5]) > 0.05 * abs(st1[5]) + 0.02:
+            out.append(Failure(clause="tsol_2D_eq_1D", key=f"tsol_2D_eq_1D|_run_2D|{case['config']}",
+                               detail=f"solidification time 2D {st2[5]:.3f} min vs 1D {st1[5]:.3f} min"))
     elif kind == "flake0D":
         tol = 1e-9 * 300
         if impl["cool_gap"] > tol:
@@ -262,10 +312,19 @@ def predicates(case, impl):
             out.append(Failure(clause="nuc0D_eq_direct", key="nuc0D_eq_direct|run|",
                                detail=f"state one step after nucleation: T {impl['T_after_flake']} vs "
                                       f"{impl['T_after_0D']}, sigma {impl['sigma_after_flake']} vs {impl['sigma_after_0D']}"))
+        if abs(impl["sigma_mid_flake"] - impl["sigma_mid_0D"]) > 5e-3:
+            out.append(Failure(clause="solid_curve_agree", key="solid_curve_agree|run|",
+                               detail=f"frozen fraction half-way through solidification: Snowflake "
+                                      f"{impl['sigma_mid_flake']:.5f} vs 0D {impl['sigma_mid_0D']:.5f}"))
         if abs(impl["tsol_flake"] - impl["tsol_0D"]) > max(1.0, 0.01 * impl["tsol_0D"]):
             out.append(Failure(clause="tsol_agree", key="tsol_agree|run|",
                                detail=f"solidification time {impl['tsol_flake']} s vs {impl['tsol_0D']} s"))
     elif kind == "thin":
+        if impl["curve_excess"] > 0.05:
+            out.append(Failure(clause="thin_limit_curve", key="thin_limit_curve|_run_1D|",
+                               detail=f"cooling curve (reported time vs height-averaged temperature) of the 1D model is "
+                                      f"{impl['curve_dev']:.2f} K off the homogeneous model, more than Bi*|T_shelf-T| "
+                                      f"(Bi = {impl['Bi']:.3g}) allows, near t = {impl['curve_t']:.1f} s"))
         if impl["worst_excess"] > 1e-9:
             out.append(Failure(clause="thin_limit", key="thin_limit|_run_1D|",
                                detail=f"|T[0]-mean| exceeds Bi*|T_shelf-mean| by {impl['worst_excess']:.3e} K "
@@ -280,10 +339,11 @@ def classify(case, impl):
     if impl.get("raise"):
         tags.append("raise=" + str(impl["raise"]))
     if case.get("kind") == "thin" and not impl.get("raise"):
-        tags.append(f"thin: H={case['height']} Bi={impl['Bi']:.3g} gap={impl['gap_max']:.3g}K "
+        tags.append(f"thin: H={case['height']} Bi={impl['Bi']:.3g} gap={impl['gap_max']:.3g}K curve={impl['curve_dev']:.3g}K "
                     f"Tnuc1D-0D={impl['Tnuc_mean_1D'] - impl['Tnuc_0D']:.3g}K")
     if case.get("kind") == "pair2D1D" and not impl.get("raise"):
-        tags.append(f"pair: gap={impl['gap_cooling']:.3g}K")
+        tags.append(f"pair: gap={impl['gap_cooling']:.3g}K late={impl.get('gap_late', 0):.3g}K "
+                    f"tsol {impl['stats2D'][5]:.3f}/{impl['stats1D'][5]:.3f}")
     if case.get("kind") == "flake0D" and not impl.get("raise"):
         tags.append(f"flake: tsol {impl['tsol_flake']:.1f}/{impl['tsol_0D']:.1f}s")
     return tags
@@ -302,9 +362,16 @@ def cases(rng, tier):
     pairs = [c for c in twod if c["height"] == 0.01 and c["diameter"] == 0.04 and c["K_shelf"] == 1000]
     if tier != "quick":
         pairs += [c for c in twod if c["height"] == 0.02 and c["diameter"] == 0.06]
+    # vacuum kept on while the surface vapour pressure falls below the chamber pressure (negative flux)
+    cond = u._base("VISF", 0.01, 0.04, 1000, 200, visf=dict(t_vac_start=60 / 3600, t_vac_duration=1.0, p_vac=200))
+    yield dict(cond, kind="radial2D")
+    pairs.append(cond)
     for c in pairs:
         yield dict(c, kind="pair2D1D")
-    flakes = [dict(kind="flake0D", K_shelf=200, start=20, stop=-50, rate=0.05, hold=[-8.0, 1200], t_tot=4000)]
+    flakes = [dict(kind="flake0D", K_shelf=200, start=20, stop=-50, rate=0.05, hold=[-8.0, 1200], t_tot=4000),
+              # all solution constants: a solvent whose melting point is not 0 C
+              dict(kind="flake0D", K_shelf=200, start=20, stop=-50, rate=0.05, hold=[-9.0, 1200], t_tot=4000,
+                   solution={"T_eq": rng.choice([-1.5, 0.8, -0.7])})]
     if tier != "quick":
         flakes += [dict(kind="flake0D", K_shelf=100, start=10, stop=-45, rate=0.05, hold=[-6.0, 2000], t_tot=6000),
                    dict(kind="flake0D", K_shelf=400, start=20, stop=-50, rate=0.1, hold=[-10.0, 600], t_tot=3000)]
